@@ -1021,7 +1021,7 @@ def check_C14(ck):
         c2 = [("map2/" + cl, "%s map2 %s %s" % (tag, K.show(p[0]), K.show(p[1]))) for (cl, p) in pairs]
         for (cl, p), c, (impl, _), want in zip(pairs, c2, ck.run(c2), want2):
             ck.expect(impl == g.A(want), "map2:" + cl, c[1], impl, g.A(want), "clear_cofactor(iso(sswu(u0)) + iso(sswu(u1)))")
-            if cl == "u0=-u1":
+            if cl == "u0=-u1" and not K.is_zero(p[0]):
                 ck.expect(impl == "inf", "map2:u0=-u1", c[1], impl, "inf", "identity for opposite inputs")
 
 
@@ -1214,6 +1214,7 @@ def check_C20(ck):
                         unsafe_hits.append("%s:%d:%s" % (os.path.relpath(p, repo), ln, code.strip()[:70]))
     ck.oblige("audit:no-shared-mutable-state", not hits, "; ".join(hits[:5]))
     allowed_unsafe = re.compile(r"transmute|as_tuple_mut|unsafe fn|# Safety")
+    unsafe_hits = [h for h in unsafe_hits if "/tests" not in h.split(":")[0] and not h.split(":")[0].endswith("tests.rs")]
     bad_unsafe = [h for h in unsafe_hits if not allowed_unsafe.search(h)]
     ck.oblige("audit:unsafe-only-in-listed-constructors", not bad_unsafe, "; ".join(bad_unsafe[:5]))
     # (2) history independence + concurrency: a mixed workload, run once sequentially, then the same lines
